@@ -230,3 +230,49 @@ func Endless(r *prng.R) (string, []core.Event) {
 		return "while true\n    for i := range 3\n        print i\n        if i == 7\n            break\n        end\n    end\nend\n", nil
 	}
 }
+
+// AnyWrap builds a program that moves typed composites into any-typed
+// containers through every syntactic route (assignment, concatenation,
+// repetition, slicing, nesting in literals, arguments, return values, map
+// values) and then looks at the elements as any: typeof, ==, type assertion,
+// range. The property: "a value stored in an any always carries a concrete
+// non-any type". Programs the parser rejects are skipped by the callers.
+func AnyWrap(r *prng.R) string {
+	var b strings.Builder
+	b.WriteString("nums := [2 3]\nstrs := [\"a\" \"b\"]\nrow := [1]\nn := 7\nm := {a:1 b:2}\n")
+	arrSrc := []string{"[1] + nums", "nums + [1]", "[1] * 2", "([1 2])", "nums[1:]", "[1] + nums[1:]", "[nums[0] \"x\"]", "nums", "[n] + [n]", "[1] + [2] + nums",
+		"[] + nums", "[n true] + [\"s\"]", "strs + [\"c\"]", "[n] * n", "(nums + nums)[:2]", "[m.a n]"}
+	nestSrc := []string{"[[1] row]", "[row [1]]", "[row]", "[[1] nums]", "[nums[:1] [n]]", "[[] row]", "[row] + [[2]]"}
+	mapSrc := []string{"{a:[1] b:row}", "{a:row b:[1]}", "{a:nums}", "{a:[] b:row}", "{x:[n] y:nums[1:]}"}
+	anyMapSrc := []string{"{a:1 b:\"s\"}", "{a:n b:row}", "{a:m}", "m", "{a:nums[0] b:strs[0]}"}
+	uses := func(v string, idx string) {
+		fmt.Fprintf(&b, "print %s\n", v)
+		fmt.Fprintf(&b, "print (typeof %s%s)\n", v, idx)
+		fmt.Fprintf(&b, "print (%s%s == %s%s)\n", v, idx, v, idx)
+		fmt.Fprintf(&b, "for e := range %s\n    print (typeof e) e\nend\n", v)
+	}
+	switch r.Intn(6) {
+	case 0:
+		fmt.Fprintf(&b, "b:[]any\nb = %s\n", arrSrc[r.Intn(len(arrSrc))])
+		uses("b", "[-1]")
+		b.WriteString("if (typeof b[0]) == \"num\"\n    x := b[0].(num)\n    print x+1\nend\n")
+	case 1:
+		fmt.Fprintf(&b, "bb:[][]any\nbb = %s\n", nestSrc[r.Intn(len(nestSrc))])
+		uses("bb", "[-1]")
+		b.WriteString("for inner := range bb\n    for e := range inner\n        print (typeof e)\n    end\nend\n")
+	case 2:
+		fmt.Fprintf(&b, "mm:{}[]any\nmm = %s\n", mapSrc[r.Intn(len(mapSrc))])
+		b.WriteString("print mm (typeof mm)\nfor k := range mm\n    for e := range mm[k]\n        print k (typeof e) (e == e)\n    end\nend\n")
+	case 3:
+		fmt.Fprintf(&b, "ma:{}any\nma = %s\n", anyMapSrc[r.Intn(len(anyMapSrc))])
+		b.WriteString("print ma (typeof ma)\nfor k := range ma\n    print k (typeof ma[k]) (ma[k] == ma[k])\nend\n")
+	case 4:
+		fmt.Fprintf(&b, "func show a:[]any\n    for e := range a\n        print (typeof e) e (e == e)\n    end\nend\nshow %s\nshow (%s)\n", arrSrc[r.Intn(len(arrSrc))], arrSrc[r.Intn(len(arrSrc))])
+	default:
+		fmt.Fprintf(&b, "func mk:[]any\n    return %s\nend\nb := mk\n", arrSrc[r.Intn(len(arrSrc))])
+		uses("b", "[0]")
+		fmt.Fprintf(&b, "a:any\na = %s\nprint (typeof a) a\nmix := [a n \"s\"]\nprint (typeof mix) (typeof mix[0])\n", arrSrc[r.Intn(len(arrSrc))])
+	}
+	b.WriteString("print nums strs row n m\n") // every variable must be used
+	return b.String()
+}
